@@ -60,9 +60,14 @@ SPAN_PASCAL = {'COMMENT_ML': r"""(?P<END_COMMENT> ( \*[^)] | [^*] )* )
 TOK_TWO = TOK.replace("(?P<LP>", "(?P<COMMENT_P>\\(\\*)|(?P<LP>")
 SPAN_TWO = {'COMMENT_ML': None, 'COMMENT_P': r"(?P<END_COMMENT_P>(\*[^)]|[^*])*)\*\)"}
 SPAN = {'COMMENT_ML': r"(?P<END_COMMENT>(\*[^/]|[^*])*)\*/"}
+# the closing mark is a token of its own: the multi-line token ends IN FRONT of it (the span regexp closes with a
+# look-ahead, which may match nothing at all: right behind the opener, or at the start of a later line)
+TOK_LA = TOK.replace("(?P<WORD>", "(?P<COMMENT_END>\\*/)|(?P<WORD>")
+SPAN_LA = {'COMMENT_ML': r"(?P<END_COMMENT>(\*[^/]|[^*])*?)(?=\*/)"}
 SYN = {'COMMENT_EOL': 'COMMENT', 'COMMENT_ML': 'COMMENT', 'SEMI': ';', 'LP': '(', 'RP': ')'}
 SPAN_TWO['COMMENT_ML'] = SPAN['COMMENT_ML']
 SYN_TWO = dict(SYN, COMMENT_P='COMMENT')
+SYN_LA = dict(SYN, COMMENT_END='COMMENT')
 SYN_NOSPAN = {'COMMENT_EOL': 'COMMENT', 'SEMI': ';', 'LP': '(', 'RP': ')'}
 KEYW = {('WORD', 'if'): 'IF', ('WORD', 'do'): 'DO'}
 
@@ -111,6 +116,8 @@ CONFIGS = [
          kept=set(), ml=("(*", "*)")),
     dict(name="two-comment-syntaxes", tok=TOK_TWO, span=SPAN_TWO, syn=SYN_TWO, skip=None, prods=STMT_PRODS, stmt=True,
          kept=set(), mls=[("/*", "*/"), ("(*", "*)")]),
+    dict(name="closing-mark-is-a-token", tok=TOK_LA, span=SPAN_LA, syn=SYN_LA, skip=None, prods=STMT_PRODS, stmt=True,
+         kept=set(), closer_is_token=True),
     dict(name="only-blanks-are-space", tok=TOK_NARROW, span=SPAN, syn=SYN, skip=None, prods=STMT_PRODS,
          stmt=True, kept=set(), narrow=True),
 ]
@@ -211,6 +218,10 @@ def gen_pieces(rng, cfg):
                 out.append(("nl", None, "\n"))
             elif r < 0.85 and cfg["span"]:
                 opener, closer = rng.choice(cfg["mls"]) if cfg.get("mls") else cfg.get("ml", ("/*", "*/"))
+                if cfg.get("closer_is_token"):
+                    out.append(("tok", "COMMENT", opener + rng.choice(ML_BODIES)))
+                    out.append(("tok", "COMMENT", closer))
+                    continue
                 out.append(("tok", "COMMENT", opener + rng.choice(ML_BODIES) + closer))
             elif r < 0.95:
                 out.append(("tok", "COMMENT", "//" + rng.choice(EOL_BODIES)))
@@ -634,7 +645,8 @@ def run_shard(ctx):
         if i % 331 == 17 and pieces:
             # one line is longer than 65535 characters: columns beyond any 16-bit field
             k = rng.randrange(len(pieces))
-            while k > 0 and pieces[k - 1][2].startswith("//"):
+            while k > 0 and (pieces[k - 1][2].startswith("//") or (
+                    CONFIGS[cfg_id].get("closer_is_token") and pieces[k - 1][2].startswith("/*"))):
                 k -= 1
             pieces.insert(k, ("blank", "SPACE", " " * rng.choice([65534, 65536, 70000])))
             merged = []
@@ -659,6 +671,8 @@ def run_shard(ctx):
                 continue
             while pos > 0 and pieces[pos - 1][2].startswith("//"):
                 pos -= 1  # anything behind '//' belongs to the comment
+            while pos > 0 and CONFIGS[cfg_id].get("closer_is_token") and pieces[pos - 1][2].startswith("/*"):
+                pos -= 1  # (here the closing mark is a piece of its own: in front of it one is inside the comment)
             pieces.insert(pos, ("bad", None, rng.choice(["@", "$", "%", "/ ", "}", "\ufeff", "\x00", "\ufeff"])))
         run_case(ctx, cfg_id, pieces, smart=rng.random() < 0.5)
         if i in (0, 1, 7):
